@@ -143,7 +143,13 @@ def recorder_class(index, coupled):
 
             def interactBOL(self):
                 interfaces.Interface.interactBOL(self)
-                return self._answer(self._see("BOL"))
+                ev = self._see("BOL")
+                start = self.flags.get("setsStart")
+                if start is not None:
+                    # restart put in place by a beginning-of-life hook, as MainInterface.interactBOL does for
+                    # loadStyle=fromDB (r.p.cycle / r.p.timeNode = startCycle / startNode)
+                    self.r.p.cycle, self.r.p.timeNode = int(start[0]), int(start[1])
+                return self._answer(ev)
 
             def interactBOC(self, cycle=None):
                 return self._answer(self._see("BOC", c=_int(cycle)))
@@ -240,16 +246,19 @@ class RandomEnv:
         return self.rng.random() < self.p_conv
 
 
-def build_stack(rig, o, ifs, sink, env, order=None, tol=0.5):
+def build_stack(rig, o, ifs, sink, env, order=None, tol=0.5, sets_start=None):
     """Attach recorders with the given flag records [{en,bf,rev,dfr,cpl,hlt}, ...] in stack order (1-based index = stack
     position) through the real Operator.addInterface.  `order` optionally gives the order of the addInterface calls
-    (a permutation of 1..m); positions are then reached with addInterface(index=...).  Returns the recorders by index."""
+    (a permutation of 1..m); positions are then reached with addInterface(index=...).  sets_start = (i, cycle, node) makes
+    interactBOL of recorder i assign r.p.cycle / r.p.timeNode (enter operate() at (0, 0) then).  Returns the recorders."""
     m = len(ifs)
     order = order or list(range(1, m + 1))
     recs = {}
     placed = []  # indices already in the stack, in stack order
     for i in order:
-        f = ifs[i - 1]
+        f = dict(ifs[i - 1])
+        if sets_start and sets_start[0] == i:
+            f["setsStart"] = (sets_start[1], sets_start[2])
         rec = recorder_class(i, f["cpl"])(rig.r, rig.cs, sink, env, f)
         pos = sum(1 for j in placed if j < i)
         kw = {"reverseAtEOL": bool(f["rev"]), "enabled": bool(f["en"]), "bolForce": bool(f["bf"])}
